@@ -3,7 +3,7 @@ import OntVerif.Util.Hex
 /-!
 Line driver for C40.  `Q <op>;<op>;…` on a ledger that holds the genesis block:
 `b<n>` commit a block with n fresh transactions, `x<k>` commit k empty blocks, `d` commit a block that contains the most recently
-committed transaction once more, `r` restart, `s<n>` header sync (AddHeader of the next block's header, report, then commit of that block).  Output: `n=<height>` then for every restart and for the end of the line
+committed transaction once more, `r` restart, `s<n>` header sync (AddHeader of the next block's header, report, then commit of that block), `f<n>` candidate header (a DIFFERENT header for the next height through AddHeader, report, commit of the block, report).  Output: `n=<height>` then for every restart and for the end of the line
 `w=<first>,<last>,<count>` (header index window) and `ok=<heights on which all five queries return the committed block>/<heights>`,
 `tx=<transactions found with their block's height>/<transactions>`, `bd=` the boundary height cur-MAX (ok/bad, `+cached` when inside the window).
 -/
@@ -67,6 +67,17 @@ def doOp (s : S) (op : String) : Option (S × List String) :=
       match step P s.l (.syncHeader (P.hH b.hdr)) with
       | none => none
       | some l1 => some (commitB { s with l := l1 } txs, [report { s with l := l1 }])
+  else if op.startsWith "f" then
+    -- candidate header (another hash) indexed for the next height, report, then a different block is committed there, report
+    (op.drop 1).toNat?.bind fun n =>
+      let txs := (List.range n).map (· + s.nextTx)
+      let s := { s with nextTx := s.nextTx + n }
+      let cand : Hdr := ⟨s.l.curHeight + 1, 1000001⟩
+      match step P s.l (.syncHeader (P.hH cand)) with
+      | none => none
+      | some l1 =>
+        let s2 := commitB { s with l := l1 } txs
+        some (s2, [report { s with l := l1 }, report s2])
   else if op.startsWith "b" then
     (op.drop 1).toNat?.map fun n =>
       (commitB { s with nextTx := s.nextTx + n } ((List.range n).map (· + s.nextTx)), [])
